@@ -590,7 +590,7 @@ int main(int argc, char ** argv) {
     }
     if (mode == "hostile") {
         // drv_rsession hostile <scenarios> <seed> <casefile>: each line of casefile: <scenario> <kind> <a> <b>
-        //   sub off val | w16 off val | w32 off val | cut n 0 | dup off len | del off len | none 0 0
+        //   sub off val | w16 off val | w32 off val | zfill off len | cut n 0 | dup off len | del off len | none 0 0
         unsigned long seed = strtoul(argv[3], nullptr, 10);
         std::ifstream cf(argv[4]);
         std::string scn, kind;
@@ -603,6 +603,7 @@ int main(int argc, char ** argv) {
             if (kind == "sub" && a < (long) f.size()) f[(size_t) a] = (uint8_t) b;
             else if (kind == "w16" && a + 2 <= (long) f.size()) kit::wr16(f, (size_t) a, (uint16_t) b);
             else if (kind == "w32" && a + 4 <= (long) f.size()) kit::wr32(f, (size_t) a, (uint32_t) b);
+            else if (kind == "zfill" && a + b <= (long) f.size()) std::fill(f.begin() + a, f.begin() + a + b, (uint8_t) 0);
             else if (kind == "cut" && a <= (long) f.size()) f.resize((size_t) a);
             else if (kind == "dup" && a + b <= (long) f.size()) f.insert(f.begin() + a, f.begin() + a, f.begin() + a + b);
             else if (kind == "del" && a + b <= (long) f.size()) f.erase(f.begin() + a, f.begin() + a + b);
